@@ -2,7 +2,7 @@
 import re
 from ..facts import AST, VISITOR_CRATE, walk, walk_with_parents, strip_transparent, local_of, field_path, const_str
 from ..engine import Rule
-from ..cfg import calls, callee_name, place_of, op_const
+from ..cfg import const_range_of, calls, callee_name, place_of, op_const
 from . import common as C
 from .mirflow import self_field_of, mut_events
 from .influence import flow_of, controlling_fields, switch_fields
@@ -138,6 +138,12 @@ def r06_2(ctx):
                     r.ob(key, True, C.mloc(mb, e["node"]), "insert at constant index 0")
                 else:
                     r.ob(key, None, C.mloc(mb, e["node"]), "insert at a computed index: not decided")
+            elif short == "splice":
+                rng = const_range_of(mb, e["node"]["args"][1]) if len(e["node"].get("args", [])) > 1 else None
+                if rng == (0, 0):
+                    r.ob(key, True, C.mloc(mb, e["node"]), "splice of the empty range 0..0: insertion at the head")
+                else:
+                    r.ob(key, None, C.mloc(mb, e["node"]), "splice over a range that is not the constant 0..0: not decided")
             elif short in ("push", "extend", "append", "extend_from_slice"):
                 r.ob(key, False, C.mloc(mb, e["node"]), "generated statement appended at the end of a user statement list: it runs after the code that uses it")
     # de-duplicate
@@ -429,7 +435,7 @@ def r06_7(ctx):
                 head = []
                 for hb, mb in c10._method_bodies(ctx):
                     for e in c09.node_events(ctx, mb, {2}):
-                        if e["kind"] == "call" and e["callee"].endswith("Vec::<T, A>::insert"):
+                        if e["kind"] == "call" and (e["callee"].endswith("Vec::<T, A>::insert") or c09._empty_head_splice(mb, e)):
                             cf = controlling_fields(ctx, mb, e["bb"])
                             if lst in {first_field(f) for f in cf}:
                                 head.append(hb["name"])
